@@ -13,7 +13,7 @@ REPAIRED functions; the card (`Card`, `CardCfg`, `isoPeer`), the air interface (
   and the exchange ends with `Type4TagCommandError(TIMEOUT_ERROR)` when the sum exceeds
   `max_wtxm_sum = int(MAX_WTX_TIME / fwt) = 59 * 2^(14 - FWI)` (`Pcd.wlim`, `wtxLimit`);
 * `blockLoop`: a retransmission after R(ACK) with the other block number is only made while
-  `i <= resendMax n_retry_nak` (= `n_retry_nak`), then `PROTOCOL_ERROR`;
+  `i <= resendMax n_retry_nak` (= `n_retry_nak + 1`), then `PROTOCOL_ERROR`;
 * `recvChain`: a block that announces chaining but carries no INF, or a response that is already longer than
   65538 octets, is `PROTOCOL_ERROR`.
 
@@ -59,9 +59,11 @@ def xchgW {σ} (P : Peer σ) (L : Nat) : Nat → Nat → World σ → Bytes → 
     | .fuel => (r.1, .fuel)
 
 /-- the retransmission after R(ACK) with the other block number is made while `i ≤ resendMax n_retry_nak`
-(`fixes/C08/0010`: `if i > self.n_retry_nak: raise Type4TagCommandError(PROTOCOL_ERROR)`).  The proofs use nothing but
+(`fixes/C08/0010`: `if i > self.n_retry_nak + 1: raise Type4TagCommandError(PROTOCOL_ERROR)`): an R(NAK) is only sent
+while `i ≤ n`, so the retransmission that answers the card's R(ACK) to it comes at `n + 1` at the latest and is always
+made; only an R(ACK) that answers the I-block itself again and again is cut off.  The proofs use nothing but
 `resendMax n ≤ n + 1`. -/
-def resendMax (n : Nat) : Nat := n
+def resendMax (n : Nat) : Nat := n + 1
 
 /-- rounds (blocks that are not S(WTX) responses) of one retry loop at most: a round is started while `i ≤ n` after a
 timeout / transmission error and while `i ≤ resendMax n` after R(ACK) -/
